@@ -154,6 +154,41 @@ ASYNC_PATHS = [
 
 # ------------------------------------------------------------------ sizes
 SIZES = [("2^16", "65536"), ("2^31-1", "2147483647"), ("2^32-1", "4294967295"), ("2^32", "4294967296"), ("2^53-1", "9007199254740991"), ("Infinity", "Infinity")]
+# script code called back by a native modifies the very object the native is working on (the native may hold an
+# internal borrow of it): whatever the outcome, the process must not panic
+MUTATE = [
+    ("stringify-getter-writes-holder", "JSON.stringify({ get a() { this.cache = 1; return 1; }, b: 2 })"),
+    ("stringify-getter-deletes-sibling", "JSON.stringify({ get a() { delete this.b; return 1; }, b: 2 })"),
+    ("stringify-toJSON-writes-holder", "(function () { var h = { k: { toJSON: function () { h.extra = 1; h.k2 = {}; return 1; } } }; return JSON.stringify(h); })()"),
+    ("stringify-replacer-writes-holder", "JSON.stringify({ a: 1, b: { c: 2 } }, function (k, v) { if (k) { this.added = k; } return v; })"),
+    ("stringify-array-getter-pushes", "(function () { var a = [1, 2]; Object.defineProperty(a, 'x', { get: function () { a.push(3); return 1; }, enumerable: true }); return JSON.stringify({ arr: a, get g() { a.length = 0; return 1; } }); })()"),
+    ("parse-reviver-writes-holder", "JSON.parse('{\"a\":1,\"b\":[1,2]}', function (k, v) { if (Array.isArray(this)) { this.push(9); } else { this.z = 1; } return v; })"),
+    ("assign-getter-writes-source-and-target", "(function () { var t = {}; var s = { get a() { t.x = 1; this.y = 2; delete this.b; return 1; }, b: 2 }; return Object.assign(t, s); })()"),
+    ("entries-getter-writes-object", "Object.entries({ get a() { this.n = 1; return 1; }, b: 2 })"),
+    ("spread-getter-writes-object", "(function () { var o = { get a() { o.n = 1; return 1; }, b: 2 }; return { ...o }; })()"),
+    ("rest-getter-writes-object", "(function () { var o = { get a() { o.n = 1; delete o.b; return 1; }, b: 2 }; var { a, ...r } = o; return r; })()"),
+    ("keys-proxy-ownkeys-writes-target", "(function () { var t = { a: 1 }; var p = new Proxy(t, { ownKeys: function (tt) { tt.b = 2; return Reflect.ownKeys(tt); } }); return Object.keys(p); })()"),
+    ("sort-comparator-mutates-array", "(function () { var a = [3, 1, 2, 5, 4]; return a.sort(function (x, y) { a.push(0); a.length = 3; return x - y; }); })()"),
+    ("map-callback-clears-array", "(function () { var a = [1, 2, 3, 4]; return a.map(function (x, i) { if (i == 1) { a.length = 0; a.push(9); } return x; }); })()"),
+    ("forEach-callback-unshifts", "(function () { var a = [1, 2, 3]; var n = 0; a.forEach(function (x) { if (n++ < 5) { a.unshift(0); } }); return a; })()"),
+    ("reduce-callback-shrinks", "(function () { var a = [1, 2, 3, 4]; return a.reduce(function (acc, x) { a.pop(); return acc + x; }, 0); })()"),
+    ("splice-valueOf-mutates", "(function () { var a = [1, 2, 3, 4]; return a.splice({ valueOf: function () { a.length = 1; return 0; } }, 2); })()"),
+    ("fill-valueOf-mutates", "(function () { var a = [1, 2, 3, 4]; return a.fill(0, { valueOf: function () { a.length = 0; return 1; } }); })()"),
+    ("join-toString-mutates", "(function () { var a = [1, { toString: function () { a.length = 0; a.push('x'); return 's'; } }, 3]; return a.join(); })()"),
+    ("from-mapfn-mutates-source", "(function () { var src = [1, 2, 3]; return Array.from(src, function (x) { src.push(x); src.length = 2; return x; }); })()"),
+    ("Map-forEach-mutates", "(function () { var m = new Map([[1, 1], [2, 2]]); var n = 0; m.forEach(function (v, k) { if (n++ < 4) { m.delete(k); m.set(k + 10, v); m.set('x' + n, 0); } }); return m.size; })()"),
+    ("Set-forEach-clears", "(function () { var s = new Set([1, 2, 3]); s.forEach(function (v) { s.clear(); s.add(v + 1); if (s.size > 5) { s.clear(); } }); return s.size; })()"),
+    ("Map-ctor-iterator-mutates-entries", "(function () { var e = [[1, 1], [2, 2]]; var m = new Map({ [Symbol.iterator]: function () { var i = 0; return { next: function () { e.push([9, 9]); return i < 2 ? { done: false, value: e[i++] } : { done: true }; } }; } }); return m.size; })()"),
+    ("defineProperty-getter-redefines", "(function () { var o = {}; Object.defineProperty(o, 'a', { get: function () { Object.defineProperty(o, 'a', { value: 2, configurable: true }); return 1; }, configurable: true, enumerable: true }); return [o.a, o.a, JSON.stringify(o)]; })()"),
+    ("setter-deletes-itself", "(function () { var o = { set s(v) { delete o.s; o.s = v; o.t = v; } }; o.s = 1; o.s = 2; return o; })()"),
+    ("proxy-set-trap-writes-target", "(function () { var t = {}; var p = new Proxy(t, { set: function (tt, k, v) { tt[k] = v; tt['also_' + String(k)] = v; delete tt.gone; return true; } }); p.a = 1; Object.assign(p, { b: 2, gone: 3 }); return t; })()"),
+    ("replace-callback-uses-same-regexp", "(function () { var re = /a/g; return 'aaa'.replace(re, function (m) { re.lastIndex = 0; 'a'.replace(re, 'b'); return m; }); })()"),
+    ("toString-during-template", "(function () { var parts = [1, 2]; var o = { toString: function () { parts.length = 0; return 'o'; } }; return `${parts}${o}${parts}`; })()"),
+    ("class-static-block-redefines", "(function () { class C { static a = 1; static { Object.defineProperty(C, 'a', { get: function () { delete C.a; return 2; }, configurable: true }); } } return [C.a, C.a]; })()"),
+    ("generator-return-during-own-next", "(function () { var it; function* g() { try { it.return(5); } catch (e) { yield 'caught:' + e.name; } yield 2; } it = g(); return [it.next(), it.next()]; })()"),
+    ("iterator-next-reenters-for-of", "(function () { var o = { i: 0, [Symbol.iterator]: function () { return this; }, next: function () { if (this.i++ < 2) { for (var x of [1]) { } } return { done: this.i > 3, value: this.i }; } }; var out = []; for (var v of o) { out.push(v); } return out; })()"),
+]
+
 SIZED = [
     ("String.repeat", "'x'.repeat({N})"),
     ("String.padStart", "'x'.padStart({N})"),
@@ -258,6 +293,9 @@ def cases(tier):
         for zn, z in SIZES:
             src = "var out; try { var r = %s; out = 'ok:' + (typeof r === 'string' || Array.isArray(r) ? 'len' + r.length : typeof r); } catch (e) { out = 'caught:' + (e && e.name); }\nout" % expr.replace("{N}", z)
             out.append({"id": "size|%s|%s" % (sname, zn), "src": src, "step_budget": 20_000_000, "depth_limit": 100_000, "step_vm_budget": 50_000_000, "kind": "size", "native": sname, "size": zn})
+    for mname, expr in MUTATE:
+        src = "var out; try { var r = %s; out = 'ok:' + (typeof r === 'string' || Array.isArray(r) ? 'len' + r.length : typeof r); } catch (e) { out = 'caught:' + (e && e.name); }\nout" % expr
+        out.append({"id": "size|%s|reentrant" % mname, "src": src, "step_budget": 20_000_000, "depth_limit": 100_000, "step_vm_budget": 50_000_000, "kind": "size", "native": mname, "size": "reentrant"})
     for dname, setup, expr in DEEP:
         for n in ([1000, 30_000] if tier == "quick" else [1000, 10_000, 30_000, 100_000]):
             if dname == "deep-closure-chain" and n > 10_000:
@@ -369,7 +407,7 @@ def run(tier, seed):
                        "size": "%s with an oversized argument: %s" % (what, aspect),
                        "deep": "%s on a deep structure: %s" % (what, aspect)}[c["kind"]]
             chk.fail("%s|%s" % (prof, c["id"]), aspect, "%s [%s build]: %s: %s" % (c["id"], prof, aspect, detail[:160]), {"id": c["id"], "tier": tier, "profile": prof}, cluster=cluster)
-    chk.coverage = {"evaluations": total, "cases": len(cs), "profiles": profiles, "paths": len(PATHS) + len(ASYNC_PATHS), "sized_natives": len(SIZED), "sizes": [s[0] for s in SIZES], "deep_structures": len(DEEP),
+    chk.coverage = {"evaluations": total, "cases": len(cs), "profiles": profiles, "paths": len(PATHS) + len(ASYNC_PATHS), "sized_natives": len(SIZED), "reentrant_mutation_programs": len(MUTATE), "sizes": [s[0] for s in SIZES], "deep_structures": len(DEEP),
                     "samples": [{"id": c["id"], "src": str(c.get("src", ""))[:400]} for c in (cs[len(cs) // 3], cs[len(cs) // 2], cs[-1])],
                     "distinct_nontrivial": sum(len(v) for v in good_paths.values()), "paths_fully_under_host_control": sorted(p for p, v in good_paths.items() if len(v) == 4), "paths_not_reaching_the_callee_on_tsrun": sorted(skipped_uncal), "table": table,
                     "rule": "every (re-entry path x body) pair of the table: body in {infinite loop, unbounded recursion through the same path, finite recursion of depth %d, depth 50 (calibration)}; host = step counter + call_depth() limit 1000, exactly the CLI's --timeout/--max-depth; a step may execute at most 10^6 VM instructions (hook counter); every (native x size) pair and every (native x deep structure x depth) pair under RLIMIT_AS 2 GiB and an 8 MiB stack, each case attributed to its own worker death/hang" % (3_000 if tier == "quick" else 30_000)}
